@@ -112,6 +112,10 @@ def get_image_quadrants(IM, reorient=True, symmetry_axis=None,
     """
     IM = np.atleast_2d(IM)
 
+    # plain Python booleans (NumPy booleans add as logical "or", which would
+    # turn the averages below into sums)
+    use_quadrants = tuple(bool(q) for q in use_quadrants)
+
     if not isinstance(symmetry_axis, (list, tuple)):
         # if the user supplies an int, make it into a 1-element list:
         symmetry_axis = [symmetry_axis]
